@@ -12,9 +12,9 @@
     * `floatToInt` = `Binary8Format.float_to_int8` (fp8.py:37-47) = `MXFPFormat.float_to_int` (mxfp.py:77-88):
       `struct.pack('>e', f)`, index the *generated* table `Gen.enc…`, the OverflowError clamp branch (clamp values
       are the generated `Gen.clamp…`, i.e. the live `pos_clamp_value/neg_clamp_value`);
-    * `encode` = `p4binary2bitstore … mxint2bitstore, e8m0mxfp2bitstore, bfloat2bitstore` (bitstore_helpers.py:111-209);
+    * `encode` = `p4binary2bitstore … mxint2bitstore, e8m0mxfp2bitstore, bfloat2bitstore` (bitstore_helpers.py:109-209);
     * `decode` = `Bits._getp4binary … _getmxint, _gete8m0mxfp, _getbfloatbe/le` (bits.py:730-807) on `Gen.dec…`;
-    * `scaledDecode/scaledEncode` = `scaled_get_fn/scaled_set_fn` (dtypes.py:12-21), zero scale → ValueError (dtypes.py:127-128).
+    * `scaledDecode/scaledEncode` = `scaled_get_fn/scaled_set_fn` (dtypes.py:12-21), zero scale → ValueError (dtypes.py:123-128).
 -/
 import BitstringModel.Model.Basic
 import BitstringModel.Model.C11_Spec
@@ -43,7 +43,7 @@ def toHex (digits n : Nat) : String := String.ofList (toHexList digits n [])
 
 /-! ## GEN: the live tables -/
 
-/-- The nine format objects of fp8.py:115-116 and mxfp.py:189-195. -/
+/-- The nine format objects of fp8.py:91-92 and mxfp.py:190-196. -/
 inductive Tbl where
   | p3 | p4 | e5m2s | e5m2o | e4m3s | e4m3o | e3m2 | e2m3 | e2m1
   deriving DecidableEq, Repr, Inhabited
@@ -88,7 +88,7 @@ def floatToInt (t : Tbl) (f : Nat) : Except Err Nat :=
     | some c => .ok c
     | none => .error .index
 
-/-- `int2bitstore(u, n, False)` (bitstore_helpers.py:211-226): CreationError when `u` needs more than `n` bits. -/
+/-- `int2bitstore(u, n, False)` (bitstore_helpers.py:212-227): CreationError when `u` needs more than `n` bits. -/
 def uintBits (n u : Nat) : Except Err Nat := if u < 2 ^ n then .ok u else .error .value
 
 inductive Name where
@@ -119,7 +119,7 @@ def encode (n : Name) (mode : Mode) (f : Nat) : Except Err Nat :=
   | .bfloat => .ok (bfloatEnc true f)
   | .bfloatle => .ok (bfloatEnc false f)
 
-/-! ## ALG: decoders (bits.py:730-807); every getter of a two-mode format reads the *saturate* object's table -/
+/-! ## ALG: decoders (bits.py:772-808, 833-849); every getter of a two-mode format reads the *saturate* object's table -/
 
 def tblDec (t : Tbl) (u : Nat) : Except Err Nat :=
   match decLookup t.dec u with
